@@ -353,6 +353,7 @@ pub(crate) struct ClusterStorage {
     db: ServerDb,
     cluster_log: ClusterLog,
     db_pool: DbPool,
+    last_execution: Option<tokio::task::JoinHandle<()>>,
 }
 
 impl ClusterStorage {
@@ -369,6 +370,7 @@ impl ClusterStorage {
             db,
             cluster_log,
             db_pool,
+            last_execution: None,
         };
 
         for log in logs {
@@ -385,8 +387,14 @@ impl ClusterStorage {
         let cluster_log = self.cluster_log.clone();
         let notifier = self.notifier.clone();
         let result_notifier = self.result_notifiers.remove(&log_id);
+        let previous = self.last_execution.take();
 
-        tokio::spawn(async move {
+        self.last_execution = Some(tokio::spawn(async move {
+            // Committed actions are executed one at a time in the order of the log.
+            if let Some(previous) = previous {
+                let _ = previous.await;
+            }
+
             #[cfg(agdb_verif)]
             crate::verif::before_execution(log.index).await;
             let result = log.data.exec(db.clone(), db_pool).await;
@@ -398,7 +406,7 @@ impl ClusterStorage {
             if let Some(rs) = result_notifier {
                 let _ = rs.send(result.map(|r| (log.index, r)));
             }
-        });
+        }));
 
         Ok(())
     }
